@@ -33,10 +33,15 @@ def fn(a, b, k=0):
 
 
 def canon_df(df):
+    """rows as [a, b, k, out]; k is -1 where the table has no value for it (column absent or empty cell)"""
     if df is None:
         return None
-    cols = [c for c in ("a", "b", "k", "out") if c in df.columns]
-    return [[int(r[c]) for c in cols] for _, r in df.iterrows()]
+    out = []
+    for _, r in df.iterrows():
+        k = r["k"] if "k" in df.columns else None
+        k = -1 if (k is None or (isinstance(k, float) and np.isnan(k))) else int(k)
+        out.append([int(r["a"]), int(r["b"]), k, int(r["out"])])
+    return out
 
 
 def read_file(path, engine):
@@ -87,7 +92,7 @@ def run_history(c, tmp, idx):
             combos = dict(combos or {})
             combos["a"] = list(CHOICES["a"])
         # a constant given for this run only (overrides the runner's own)
-        run_k = 5 if (use_const and rng.random() < 0.3) else (2 if use_const else 0)
+        run_k = 5 if rng.random() < 0.3 else (2 if use_const else 0)
         kc = {"constants": {"k": run_k}} if run_k == 5 else {}
         ke = {"engine": engine} if rng.random() < 0.3 else {}
         rep = {"engine": engine, "const": use_const, "steps": steps, "default_combos": defaults_kind}
@@ -167,7 +172,7 @@ def run_history(c, tmp, idx):
                     c.violation("draw-outside-choices", f"row {row}", rep)
                 if out != fn(a, b, run_k):
                     c.violation("row-output-wrong", f"row {row}: the function gives {fn(a, b, run_k)}", rep)
-                if use_const and row[2] != run_k:
+                if (use_const or run_k == 5) and row[2] != run_k:
                     c.violation("row-constant-wrong", f"row {row}: this run's constant k was {run_k}", rep)
             if canon_df(ss[who]._full_df) != after:
                 c.violation("memory-differs-from-disk", "full_df differs from the table on disk after the run", rep)
